@@ -15,6 +15,9 @@ import (
 
 type C14Case struct {
 	Net  NetSpec `json:"net"`
+	// Rel (as long as Caps, or absent): a non-zero entry r replaces the cap of that query by depth + r - 3 (r = 1..5: two
+	// below the depth ... two above it), whatever the depth is - deep chains and dense graphs have depths far above 8
+	Rel  []int   `json:"caps_relative_to_depth,omitempty"`
 	Caps []int   `json:"caps"` // queries issued on one instance before the final uncapped one (0 = uncapped, -1 = the paths are printed with PrintAllActivationDepthPaths instead, a read-only dump that shares the traversal)
 }
 
@@ -29,6 +32,11 @@ func GenC14() *rapid.Generator[C14Case] {
 			c.Net = dag.Draw(t, "dag")
 		}
 		n := rapid.IntRange(0, 4).Draw(t, "queries")
+		if n > 0 && rapid.Bool().Draw(t, "caps near the depth") {
+			for i := 0; i < n; i++ {
+				c.Rel = append(c.Rel, rapid.IntRange(0, 5).Draw(t, "relative cap"))
+			}
+		}
 		for i := 0; i < n; i++ {
 			c.Caps = append(c.Caps, rapid.OneOf(rapid.IntRange(-1, 8), rapid.IntRange(-1, 8), rapid.IntRange(-1, 8),
 				rapid.SampledFrom([]int{math.MaxInt, math.MaxInt - 1, math.MaxInt32, math.MaxInt32 + 1, 1000, 65536})).Draw(t, "cap"))
@@ -96,6 +104,21 @@ func CheckC14(c C14Case, rec *Rec) error {
 			rec.Class("cap below the depth")
 		}
 	}
+	if D > 8 {
+		// deep networks: the caps around the depth and half way
+		for _, cap := range []int{D - 2, D - 1, D, D + 1, D / 2, 2 * D} {
+			n2, _ := build()
+			got, err := n2.MaxActivationDepthWithCap(cap)
+			if D <= cap {
+				if err != nil || got != D {
+					return fmt.Errorf("cap %d on a fresh network with depth %d returns (%d, %v)", cap, D, got, err)
+				}
+			} else if !errors.Is(err, network.ErrMaximalNetDepthExceeded) || got != cap {
+				return fmt.Errorf("cap %d on a fresh network with depth %d returns (%d, %v), expected (%d, depth exceeded)", cap, D, got, err, cap)
+			}
+		}
+		rec.Class("caps around a depth above 8")
+	}
 	for _, cap := range []int{math.MaxInt, math.MaxInt32} {
 		n2, _ := build()
 		if got, err := n2.MaxActivationDepthWithCap(cap); err != nil || got != D {
@@ -105,6 +128,9 @@ func CheckC14(c C14Case, rec *Rec) error {
 	// idempotence: any sequence of queries on one instance, then the uncapped answer again
 	capHit := false
 	for i, cap := range c.Caps {
+		if i < len(c.Rel) && c.Rel[i] > 0 && D+c.Rel[i]-3 > 0 {
+			cap = D + c.Rel[i] - 3
+		}
 		if cap < 0 {
 			if len(c.Net.Links) > 60 {
 				continue // the dump of a dense network is long; the depth queries are what is checked there
